@@ -1,7 +1,13 @@
 /-
 C06 - SCP bursts complete each command exactly once despite loss and reordering.
+
+Property theorems about the model `RigModel.Model.C06` of `SCPConnection.send_scp_burst`.
+All theorems hold for EVERY clock function and EVERY list of batches (the environment);
+`l : List Int` are the per-command extra timeouts, the burst has `l.length` commands.
+Helper definitions (`ext`, `calledOf`, `sendKeys`, `WF`, `Reach`) and the history invariant
+are in `RigModel.Lemmas.C06`.
 -/
-import RigModel.Model.C06
+import RigModel.Lemmas.C06
 set_option linter.unusedSimpArgs false
 set_option linter.unusedVariables false
 
@@ -15,5 +21,371 @@ theorem consts_documented :
     (∀ c ∈ allCodes, c = rcOk ∨ c ∈ retryable ∨ c ∈ fatalCodes) ∧
     (∀ c ∈ fatalCodes, c ≠ rcOk ∧ c ∉ retryable) := by
   decide
+
+variable {cfg : Cfg} {l : List Int} {clock : Nat → Int}
+
+/-! ### the window -/
+
+/-- **Window.** At the start of every loop iteration at most `window` packets are outstanding. -/
+theorem window_bound {st : St} (h : WF cfg) (hr : Reach cfg l clock st) :
+    st.outs.length ≤ cfg.window := by
+  obtain ⟨s0, H, hH⟩ := reach_inv h hr
+  exact hH.win
+
+/-- **Window, fullest point.** Also right after the transmit loop (the fullest point inside an
+iteration) at most `window` packets are outstanding. -/
+theorem window_bound_fill {st : St} (h : WF cfg) (hr : Reach cfg l clock st) :
+    (fill cfg (ext l) clock (cfg.window + 1) st).1.outs.length ≤ cfg.window := by
+  obtain ⟨s0, H, hH⟩ := reach_inv h hr
+  exact (fill_inv (P := fun _ => True) h (cfg.window + 1) st H _ _ hH rfl).win
+
+/-- **Distinct sequence numbers.** No two unanswered commands share a sequence number. -/
+theorem seqs_distinct {st : St} (h : WF cfg) (hr : Reach cfg l clock st) :
+    (st.outs.map (·.1)).Nodup := by
+  obtain ⟨s0, H, hH⟩ := reach_inv h hr
+  exact hH.keys
+
+/-! ### a complete run from the start of a burst -/
+
+section run
+variable {s0 : Nat} {batches : List (List Dgram)} {st : St} {evs : List Ev} {res : Res}
+
+/-- **At most once.** No command's callback is called twice. -/
+theorem callback_at_most_once (h : WF cfg)
+    (hrun : run cfg (ext l) clock (St.init s0) batches = (st, evs, res)) :
+    (calledOf evs).Nodup := by
+  have := (run_top h hrun).1.nodup
+  simp only [cmds, List.append_assoc] at this
+  exact (List.nodup_append.mp this).1
+
+/-- **At least once on success.** If the burst returns normally, the callback of every command
+was called (with `callback_at_most_once`: exactly once). -/
+theorem done_all_called (h : WF cfg)
+    (hrun : run cfg (ext l) clock (St.init s0) batches = (st, evs, res)) :
+    res = .done → ∀ c, c < l.length → c ∈ calledOf evs := by
+  intro hd c hc
+  obtain ⟨hI, hdone, _, _⟩ := run_top h hrun
+  have hact := hdone hd
+  simp only [St.active, Bool.or_eq_false_iff, Bool.not_eq_false', List.isEmpty_iff] at hact
+  obtain ⟨⟨hq, ho⟩, hp⟩ := hact
+  have hn := hI.drained hq
+  have := (hI.cover c).mpr (by omega)
+  simpa [cmds, ho, hp] using this
+
+/-- **Own sequence number, OK reply.** A callback is only called with a datagram that was received
+in one of the batches, has return code OK, and carries the sequence number the command was
+(first) sent with. -/
+theorem callback_own_seq (h : WF cfg)
+    (hrun : run cfg (ext l) clock (St.init s0) batches = (st, evs, res)) {c i : Nat} :
+    Ev.callback c i ∈ evs →
+    ∃ d ∈ batches.flatten, d.id = i ∧ d.rc = rcOk ∧ ∃ t, Ev.send d.seq c 1 t ∈ evs := by
+  intro hm
+  obtain ⟨d, hd, h1, h2, h3⟩ := (run_top h hrun).1.cb_ok c i hm
+  exact ⟨d, hd, h1, h2, h3⟩
+
+/-- **Retransmissions reuse the sequence number.** All transmissions of one command carry the same
+sequence number. -/
+theorem seq_fixed (h : WF cfg)
+    (hrun : run cfg (ext l) clock (St.init s0) batches = (st, evs, res))
+    {s s' c k k' : Nat} {t t' : Int} :
+    Ev.send s c k t ∈ evs → Ev.send s' c k' t' ∈ evs → s = s' :=
+  fun h1 h2 => (run_top h hrun).1.seq_fix _ _ _ _ _ _ _ h1 h2
+
+/-- **Tries bound.** Every transmission is try number `1 ≤ k ≤ n_tries` of a command of the burst. -/
+theorem tries_bound (h : WF cfg)
+    (hrun : run cfg (ext l) clock (St.init s0) batches = (st, evs, res))
+    {s c k : Nat} {t : Int} :
+    Ev.send s c k t ∈ evs → 1 ≤ k ∧ k ≤ cfg.nTries ∧ c < l.length := by
+  intro hm
+  have hI := (run_top h hrun).1
+  have := hI.send_ok _ _ _ _ hm
+  have := hI.next_le
+  omega
+
+/-- **Tries are counted.** The (command, try) pairs of all transmissions are distinct, so the try
+number really counts the transmissions of a command. -/
+theorem sends_numbered (h : WF cfg)
+    (hrun : run cfg (ext l) clock (St.init s0) batches = (st, evs, res)) :
+    (sendKeys evs).Nodup :=
+  (run_top h hrun).1.keys_nodup
+
+/-- **Bounded work.** A burst transmits at most `n_commands * n_tries` packets (the progress half
+of termination). -/
+theorem send_bound (h : WF cfg)
+    (hrun : run cfg (ext l) clock (St.init s0) batches = (st, evs, res)) :
+    (sendKeys evs).length ≤ l.length * cfg.nTries := by
+  apply pairs_bound _ _ _ (sends_numbered h hrun)
+  intro p hp
+  obtain ⟨c, k⟩ := p
+  obtain ⟨s, t, hm⟩ := mem_sendKeys.mp hp
+  exact ⟨(tries_bound h hrun hm).2.2, (tries_bound h hrun hm).1, (tries_bound h hrun hm).2.1⟩
+
+/-- **Timeout only after all tries.** If the burst raises `TimeoutError` for command `c`, then `c`
+was transmitted `n_tries` times (try number `n_tries` exists; with `sends_numbered` and
+`tries_bound`: exactly `n_tries` times), its callback was not called and no reply to it was
+accepted. -/
+theorem timeout_only_after_all_tries (h : WF cfg)
+    (hrun : run cfg (ext l) clock (St.init s0) batches = (st, evs, res)) {c : Nat} :
+    res = .timeout c →
+    (∃ s t, Ev.send s c cfg.nTries t ∈ evs) ∧ c ∉ calledOf evs ∧ (∀ i, (c, i) ∉ st.pend) := by
+  intro hres
+  obtain ⟨hI, _, hto, _⟩ := run_top h hrun
+  obtain ⟨s, o, hm, rfl, hge⟩ := hto c hres
+  have ho := hI.out_ok s o hm
+  have heq : o.tries = cfg.nTries := by have := ho.tries_le; omega
+  obtain ⟨t, ht, _⟩ := ho.last
+  have hnd := hI.nodup
+  simp only [cmds] at hnd
+  have hdis := (List.nodup_append.mp hnd).2.2
+  have hin : o.cmd ∈ st.outs.map (·.2.cmd) := List.mem_map_of_mem (f := fun p : Nat × Out => p.2.cmd) hm
+  refine ⟨⟨s, t, heq ▸ ht⟩, ?_, ?_⟩
+  · intro hc
+    exact hdis _ (List.mem_append_left _ hc) _ hin rfl
+  · intro i hi
+    exact hdis _ (List.mem_append_right _ (List.mem_map_of_mem (f := fun p : Nat × Nat => p.1) hi)) _ hin rfl
+
+/-- **No early retransmission.** Try `k + 2` of a command happens strictly later than its try
+`k + 1` plus the command's timeout (default timeout + per-command extra), with the same sequence
+number. -/
+theorem no_early_retransmit (h : WF cfg)
+    (hrun : run cfg (ext l) clock (St.init s0) batches = (st, evs, res))
+    {s c k : Nat} {t : Int} :
+    Ev.send s c (k + 2) t ∈ evs →
+    ∃ t0, Ev.send s c (k + 1) t0 ∈ evs ∧ t0 + (cfg.defaultTimeout + (l[c]?).getD 0) < t :=
+  fun hm => (run_top h hrun).1.spacing _ _ _ _ hm
+
+/-- **Fatal codes are reported (converse).** If the burst raises `FatalReturnCodeError rc`, a
+datagram with that return code was received, and the code is neither OK nor retryable. -/
+theorem fatal_only_from_reply (h : WF cfg)
+    (hrun : run cfg (ext l) clock (St.init s0) batches = (st, evs, res)) {rc : Nat} {c : Option Nat} :
+    res = .fatal rc c → ∃ d ∈ batches.flatten, d.rc = rc ∧ rc ≠ rcOk ∧ rc ∉ retryable := by
+  intro hres
+  obtain ⟨d, hd, h1⟩ := (run_top h hrun).2.2.2 rc c hres
+  exact ⟨d, hd, h1⟩
+
+/-- **Distinct commands, distinct sequence numbers.** In a burst of at most `modulus` commands no
+two commands are ever transmitted with the same sequence number. -/
+theorem seq_injective (h : WF cfg) (hlen : l.length ≤ cfg.modulus)
+    (hrun : run cfg (ext l) clock (St.init s0) batches = (st, evs, res))
+    {s c c' k k' : Nat} {t t' : Int} :
+    Ev.send s c k t ∈ evs → Ev.send s c' k' t' ∈ evs → c = c' := by
+  intro h1 h2
+  have hI := (run_top h hrun).1
+  have e1 := hI.seq_val hlen _ _ _ _ h1
+  have e2 := hI.seq_val hlen _ _ _ _ h2
+  have b1 := (hI.send_ok _ _ _ _ h1).2.2
+  have b2 := (hI.send_ok _ _ _ _ h2).2.2
+  have := hI.next_le
+  exact seqVal_inj (m := cfg.modulus) (s0 := s0) (by omega) (by omega) (by rw [← e1, ← e2])
+
+/-- **Own reply, under freshness.** `origin` is ghost ground truth: the command of this burst whose
+request caused the datagram with that id (`none`: caused by an earlier burst).  If every reply
+carries its request's sequence number (`netOK`), the burst has at most `modulus` commands and no
+stale datagram carries a sequence number used in this burst (`fresh`), then every callback is
+called with a reply to its own command. -/
+theorem callback_own_reply (h : WF cfg)
+    (hrun : run cfg (ext l) clock (St.init s0) batches = (st, evs, res))
+    (origin : Nat → Option Nat)
+    (netOK : ∀ d ∈ batches.flatten, ∀ j, origin d.id = some j → ∃ t, Ev.send d.seq j 1 t ∈ evs)
+    (hlen : l.length ≤ cfg.modulus)
+    (fresh : ∀ d ∈ batches.flatten, origin d.id = none → ∀ c t, Ev.send d.seq c 1 t ∉ evs)
+    {c i : Nat} : Ev.callback c i ∈ evs → origin i = some c := by
+  intro hm
+  obtain ⟨d, hd, rfl, _, t, ht⟩ := callback_own_seq h hrun hm
+  cases ho : origin d.id with
+  | none => exact absurd ht (fresh d hd ho c t)
+  | some j =>
+    obtain ⟨t', ht'⟩ := netOK d hd j ho
+    rw [seq_injective h hlen hrun ht' ht]
+
+end run
+
+/-! ### fatal and retryable return codes (one step, no well-formedness needed) -/
+
+/-- **Fatal codes raise.** If a batch contains a datagram `d` whose code is neither OK nor retryable and
+every datagram before it is OK or retryable, the receive loop stops at `d` with
+`FatalReturnCodeError d.rc`, reporting the command outstanding under `d.seq` at that point
+(`outs'` is the outstanding table after the datagrams before `d`). -/
+theorem fatal_raises (pre post : List Dgram) (d : Dgram) (outs : List (Nat × Out)) (pend : List (Nat × Nat))
+    (hpre : ∀ x ∈ pre, x.rc = rcOk ∨ x.rc ∈ retryable) (h1 : d.rc ≠ rcOk) (h2 : d.rc ∉ retryable) :
+    ∃ outs' pend', recvAll pre outs pend = .ok outs' pend' ∧
+      recvAll (pre ++ d :: post) outs pend = .fatal d.rc ((lookupSeq outs' d.seq).map (·.cmd)) := by
+  induction pre generalizing outs pend with
+  | nil =>
+    refine ⟨outs, pend, rfl, ?_⟩
+    have e1 : (d.rc != rcOk) = true := by simpa using h1
+    have e2 : retryable.contains d.rc = false := by simpa using h2
+    simp only [List.nil_append, recvAll, e1, e2, if_true, Bool.false_eq_true, if_false]
+  | cons x pre ih =>
+    have hpre' : ∀ y ∈ pre, y.rc = rcOk ∨ y.rc ∈ retryable :=
+      fun y hy => hpre y (List.mem_cons_of_mem _ hy)
+    rcases hpre x (List.mem_cons_self ..) with hx | hx
+    · have e1 : (x.rc != rcOk) = false := by simp [hx]
+      simp only [List.cons_append, recvAll, e1, Bool.false_eq_true, if_false]
+      cases hl : lookupSeq outs x.seq with
+      | none => exact ih outs pend hpre'
+      | some o => exact ih _ _ hpre'
+    · have e2 : retryable.contains x.rc = true := by simpa using hx
+      have e1 : (x.rc != rcOk) = true := by
+        simp [retryable] at hx
+        rcases hx with hx | hx <;> simp [hx, rcOk]
+      simp only [List.cons_append, recvAll, e1, e2, if_true]
+      exact ih outs pend hpre'
+
+/-- **Fatal codes raise (one iteration).** -/
+theorem fatal_raises_iter (extra : Nat → Option Int) (st : St) (pre post : List Dgram) (d : Dgram)
+    (hpre : ∀ x ∈ pre, x.rc = rcOk ∨ x.rc ∈ retryable) (h1 : d.rc ≠ rcOk) (h2 : d.rc ∉ retryable) :
+    ∃ c, (iter cfg extra clock st (pre ++ d :: post)).2.2 = some (.fatal d.rc c) := by
+  unfold iter
+  cases fill cfg extra clock (cfg.window + 1) st with
+  | mk st1 ev1 =>
+    simp only
+    split
+    · rename_i rc c hrecv
+      obtain ⟨outs', pend', _, hf⟩ := fatal_raises pre post d _ _ hpre h1 h2
+      rw [hf] at hrecv
+      simp only [RecvRes.fatal.injEq] at hrecv
+      obtain ⟨rfl, rfl⟩ := hrecv
+      exact ⟨_, rfl⟩
+    · rename_i outs pend hrecv
+      obtain ⟨outs', pend', _, hf⟩ := fatal_raises pre post d _ _ hpre h1 h2
+      rw [hf] at hrecv
+      cases hrecv
+
+/-- **Fatal codes raise (whole burst).** When such a batch is the current one and the loop is still
+active, the burst ends with `FatalReturnCodeError d.rc`. -/
+theorem fatal_raises_run (extra : Nat → Option Int) (st : St) (pre post : List Dgram) (d : Dgram)
+    (bs : List (List Dgram)) (hact : st.active = true)
+    (hpre : ∀ x ∈ pre, x.rc = rcOk ∨ x.rc ∈ retryable) (h1 : d.rc ≠ rcOk) (h2 : d.rc ∉ retryable) :
+    ∃ c, (run cfg extra clock st ((pre ++ d :: post) :: bs)).2.2 = .fatal d.rc c := by
+  obtain ⟨c, hc⟩ := fatal_raises_iter (cfg := cfg) (clock := clock) extra st pre post d hpre h1 h2
+  unfold run
+  simp only [hact, if_true]
+  cases hi : iter cfg extra clock st (pre ++ d :: post) with
+  | mk st' x =>
+    obtain ⟨evs, r⟩ := x
+    rw [hi] at hc
+    simp only at hc
+    subst hc
+    exact ⟨c, rfl⟩
+
+/-- **Retryable codes are ignored.** A datagram with a retryable return code changes nothing
+(`rcOk ∉ retryable` by `consts_documented`). -/
+theorem retryable_ignored (d : Dgram) (ds : List Dgram) (outs : List (Nat × Out)) (pend : List (Nat × Nat)) :
+    d.rc ∈ retryable → recvAll (d :: ds) outs pend = recvAll ds outs pend := by
+  intro hx
+  have e2 : retryable.contains d.rc = true := by simpa using hx
+  have e1 : (d.rc != rcOk) = true := by
+    simp [retryable] at hx
+    rcases hx with hx | hx <;> simp [hx, rcOk]
+  simp only [recvAll, e1, e2, if_true]
+
+/-! ### without freshness the own-reply clause fails: sequence-number wrap-around -/
+
+namespace Wrap
+def cfgW : Cfg := { window := 1, nTries := 3, modulus := 4, defaultTimeout := 2 }
+def lW : List Int := [0, 0, 0, 0, 0]
+def clockW : Nat → Int := fun k => k
+def okW (id seq : Nat) : Dgram := { id := id, rc := 128, seq := seq }
+/-- replies to commands 0..3, then a duplicate (id 20) of the reply to command 0 -/
+def batchesW : List (List Dgram) := [[okW 10 0], [okW 11 1], [okW 12 2], [okW 13 3], [okW 20 0], []]
+/-- ground truth: datagram 10 + j answers command j (j < 4), datagram 20 answers command 0 -/
+def originW : Nat → Option Nat := fun i => if i = 20 then some 0 else if i < 14 then some (i - 10) else none
+
+theorem run_eq : (run cfgW (ext lW) clockW (St.init 0) batchesW).2 =
+    ([.send 0 0 1 0, .send 1 1 1 3, .callback 0 10, .send 2 2 1 6, .callback 1 11, .send 3 3 1 9,
+      .callback 2 12, .send 0 4 1 12, .callback 3 13, .callback 4 20], .done) := by decide
+end Wrap
+
+open Wrap in
+/-- **Counterexample (sequence wrap).** Modulus 4, window 1, five commands: commands 0 and 4 both
+get sequence number 0.  Every reply carries its request's sequence number (`netOK` holds), but a
+duplicate of the reply to command 0 (id 20), delivered while command 4 is outstanding, is accepted
+as the reply to command 4: its callback is called with a foreign reply and the burst returns
+normally.  So `callback_own_reply` needs `l.length ≤ cfg.modulus`.  (With the real 16-bit sequence
+numbers this takes 65,537 commands: the known finding `seq-wrap`.) -/
+theorem own_reply_wrap_counterexample :
+    ∃ (cfg : Cfg) (l : List Int) (clock : Nat → Int) (s0 : Nat) (batches : List (List Dgram))
+      (origin : Nat → Option Nat) (st : St) (evs : List Ev) (res : Res),
+      WF cfg ∧ l.length = cfg.modulus + 1 ∧
+      run cfg (ext l) clock (St.init s0) batches = (st, evs, res) ∧ res = .done ∧
+      (∀ d ∈ batches.flatten, ∀ j, origin d.id = some j → ∃ t, Ev.send d.seq j 1 t ∈ evs) ∧
+      ∃ c i, Ev.callback c i ∈ evs ∧ origin i ≠ some c := by
+  refine ⟨cfgW, lW, clockW, 0, batchesW, originW,
+    (run cfgW (ext lW) clockW (St.init 0) batchesW).1,
+    (run cfgW (ext lW) clockW (St.init 0) batchesW).2.1,
+    (run cfgW (ext lW) clockW (St.init 0) batchesW).2.2,
+    by unfold WF; decide, rfl, rfl, ?_, ?_, 4, 20, ?_, by decide⟩
+  · rw [run_eq]
+  · intro d hd j hj
+    rw [run_eq]
+    simp [batchesW, okW] at hd
+    rcases hd with rfl | rfl | rfl | rfl | rfl <;> simp [originW] at hj <;> subst hj <;> simp
+  · rw [run_eq]; decide
+
+/-! ### non-vacuity: a concrete burst with loss, a retryable code, a duplicate reply,
+retransmissions and callbacks satisfies the hypotheses and exercises every clause -/
+
+namespace Example
+def cfgX : Cfg := { window := 2, nTries := 3, modulus := 4, defaultTimeout := 2 }
+def lX : List Int := [0, 1, 0]
+def clockX : Nat → Int := fun k => k
+def okD (id seq : Nat) : Dgram := { id := id, rc := 128, seq := seq }
+/-- nothing; reply to command 0; a retryable code; reply to 1 and a duplicate reply to 0; reply to 2 -/
+def batchesX : List (List Dgram) :=
+  [[], [okD 10 1], [{ id := 11, rc := 130, seq := 2 }], [okD 12 2, okD 13 1], [okD 14 3], []]
+
+example : WF cfgX := by unfold WF; decide
+
+/-- three commands, window 2: commands 0, 1 and 2 are retransmitted (same sequence number, later
+than the timeout), each callback is called exactly once with its own reply, the burst completes -/
+example : (run cfgX (ext lX) clockX (St.init 1) batchesX).2 =
+    ([.send 1 0 1 0, .send 2 1 1 1, .send 1 0 2 3, .send 2 1 2 5, .send 3 2 1 6, .callback 0 10,
+      .send 3 2 2 10, .callback 1 12, .callback 2 14], .done) := by decide
+
+/-- no reply at all: `n_tries` transmissions, then `TimeoutError` for command 0 -/
+example : (run { cfgX with nTries := 2 } (ext [0]) (fun k => 2 * k) (St.init 1) [[], [], [], [], []]).2 =
+    ([.send 1 0 1 0, .send 1 0 2 4], .timeout 0) := by decide
+
+/-- a fatal code after an OK reply and a retryable one: `FatalReturnCodeError` -/
+example : (run cfgX (ext lX) clockX (St.init 1)
+    [[okD 10 1, { id := 11, rc := 130, seq := 2 }, { id := 12, rc := 131, seq := 2 }, okD 13 2]]).2.2 =
+    .fatal 131 (some 1) := by decide
+
+/-- a reachable state with a full window -/
+example : ∃ st, Reach cfgX lX clockX st ∧ st.outs.length = cfgX.window :=
+  ⟨_, Reach.step _ [] (Reach.init 1) (by decide) (by decide), by decide⟩
+
+
+/-- `batchesX` followed by a stale datagram of an earlier burst (id 15, sequence number 0, which
+this burst does not use) -/
+def batchesY : List (List Dgram) := batchesX ++ [[okD 15 0]]
+/-- ground truth for `batchesY`: 10 and its duplicate 13 answer command 0, 11 (retryable code) and
+12 answer command 1, 14 answers command 2, 15 is stale -/
+def originY : Nat → Option Nat := fun i =>
+  if i = 10 ∨ i = 13 then some 0 else if i = 11 ∨ i = 12 then some 1 else if i = 14 then some 2 else none
+
+theorem runY_eq : (run cfgX (ext lX) clockX (St.init 1) batchesY).2.1 =
+    [.send 1 0 1 0, .send 2 1 1 1, .send 1 0 2 3, .send 2 1 2 5, .send 3 2 1 6,
+      .callback 0 10, .send 3 2 2 10, .callback 1 12, .callback 2 14] := by decide
+
+/-- the hypotheses of `callback_own_reply` (`netOK`, at most `modulus` commands, `fresh`) are
+satisfied by a run with retransmissions, a duplicate reply, a stale datagram and callbacks -/
+example :
+    (∀ d ∈ batchesY.flatten, ∀ j, originY d.id = some j →
+      ∃ t, Ev.send d.seq j 1 t ∈ (run cfgX (ext lX) clockX (St.init 1) batchesY).2.1) ∧
+    lX.length ≤ cfgX.modulus ∧
+    (∀ d ∈ batchesY.flatten, originY d.id = none →
+      ∀ c t, Ev.send d.seq c 1 t ∉ (run cfgX (ext lX) clockX (St.init 1) batchesY).2.1) ∧
+    Ev.callback 1 12 ∈ (run cfgX (ext lX) clockX (St.init 1) batchesY).2.1 := by
+  rw [runY_eq]
+  refine ⟨?_, by decide, ?_, by decide⟩
+  · intro d hd j hj
+    simp [batchesY, batchesX, okD] at hd
+    rcases hd with rfl | rfl | rfl | rfl | rfl | rfl <;> simp [originY] at hj <;> subst hj <;> simp
+  · intro d hd hn c t
+    simp [batchesY, batchesX, okD] at hd
+    rcases hd with rfl | rfl | rfl | rfl | rfl | rfl <;> simp [originY] at hn <;> simp
+end Example
 
 end Rig.C06
